@@ -349,9 +349,28 @@ NodeElem(g, nd, vals, shapes, inp, nocast, i) ==
                           ELSE i[Cardinality({q \in 1..j : ~\E z \in 1..Len(rax) : rax[z] + 1 = q})]]
          IN Fold(RedOpOf(nd.op), [t \in 1..n |-> AtIdx(vals, shapes, nd.x, src(t))])
 
+\* A result of a call to a loopy kernel is an UNINTERPRETED function of the
+\* kernel (nd.knl), the result (nd.res) and ALL elements of all bound arguments
+\* (arrays by position, scalars as constants): a sequential hash.
+RECURSIVE LpHash(_, _, _, _)
+LpHash(seqs, q, e, acc) ==
+  IF q > Len(seqs) THEN acc
+  ELSE IF e > Len(seqs[q]) THEN LpHash(seqs, q + 1, 1, UF(77 + q, acc))
+  ELSE LpHash(seqs, q, e + 1, UF2(500 + q, acc, ToD(seqs[q][e])))
+
+LpResVal(nd, vals, n) ==
+  LET seqs == [q \in 1..Len(nd.args) |->
+                 IF "n" \in DOMAIN nd.args[q] THEN vals[nd.args[q].n]
+                 ELSE <<Ev(nd.args[q].c, <<>>, <<>>,
+                          [bind |-> <<>>, vals |-> <<>>, shapes |-> <<>>, nocast |-> TRUE])>>]
+      bad == \E q \in DOMAIN seqs : \E e \in DOMAIN seqs[q] : seqs[q][e] >= POISON
+      h == LpHash(seqs, 1, 1, (nd.knl + 13 * nd.res) % P)
+  IN [f \in 1..n |-> IF bad THEN POISON ELSE D(UF2(640 + nd.res, h, f))]
+
 NodeVal(g, nd, vals, shapes, inp, nocast) ==
   LET k == nd.kind n == SizeOf(nd.shape) IN
   IF k = "in" THEN inp[nd.name]
+  ELSE IF k = "lpres" THEN LpResVal(nd, vals, n)
   ELSE IF k = "ncr" THEN
      \* result nd.name of calling function nd.fn with bindings nd.bind (param -> pos)
      LET body == g.funcs[nd.fn]
